@@ -23,8 +23,8 @@ def parseWsOp (t : Tree) : Option Op :=
   | .node "CON" [.atom d, .atom n] => some (.connect (d == "ok") (n == "ok"))
   | .atom "DIS" => some .disconnect
   | .node "REC" [.atom d, .atom n] => some (.reconnect (d == "ok") (n == "ok"))
-  | .node "RAW" [b, .atom w] => (treeHex b).map fun b => .sendRaw b (w == "f")
-  | .node "SND" [m, .atom w] => (encodeWithChunk m false []).map fun e => .send e (w == "f")
+  | .node "RAW" [b, .atom w] => (treeHex b).map fun b => .sendRaw b (w != "-")
+  | .node "SND" [m, .atom w] => (encodeWithChunk m false []).map fun e => .send e (w != "-")
   | .node "LEND" [.atom k] =>
     some (.listenerEnds (if k == "err" then .transportErr else if k == "abn" then .abnormal else if k == "away" then .otherCode else .normal))
   | _ => none
